@@ -20,7 +20,11 @@ func init() {
 		assume:  []string{"the call hook reports every call port (checked by the selftest: dropping it makes the replay disagree)", "generated programs stay inside the vocabulary modelled by Engine.tla"},
 		trusted: []string{"TLC", "Engine.tla as the reference semantics", "harness renderer/canonicaliser (jt)"},
 		run: func(c *checkCtx) {
-			for _, cfg := range []string{"GenCut_" + c.tier + ".cfg", "GenCut_" + c.tier + "2.cfg", "GenCut_" + c.tier + "3.cfg"} {
+			cfgs := []string{"GenCut_" + c.tier + ".cfg", "GenCut_" + c.tier + "2.cfg", "GenCut_" + c.tier + "3.cfg"}
+			if c.tier == "thorough" {
+				cfgs = append(cfgs, "GenCut_thorough4.cfg")
+			}
+			for _, cfg := range cfgs {
 				r := c.mcHolds("GenCut", cfg, tlcOpts{})
 				if r.ncases == 0 {
 					infra("GenCut produced no cases")
